@@ -323,14 +323,11 @@ CrdDev(x, u, v) ==
   LET d == RdDev(x, u, v)
       keep == {n \in DOMAIN d : "panic" \notin DOMAIN d[n]}
   IN [n \in keep |-> [CrdExp(x, u, v) EXCEPT !.eq = d[n].eq_all, !.canon = d[n].canon]]
+\* (== is not offered for records whose owner is a Chain)
 CrecExp(r, s) ==
   [compose |-> RecWire(r, FALSE), canon_wire |-> RecWire(r, TRUE),
    hdr_canon |-> ToWireAbs(LowerName(r.owner)) \o EncU16(r.code) \o EncU16(r.class)
                    \o EncU32(r.ttl) \o EncU16(RdLen(r.t, r.val)),
-   eq |-> IF RecEqFree(r, s) THEN Free ELSE RecEqCore(r, s),
    canon |-> IF RecCanonPinned(r, s) THEN RecCanonCmp(r, s) ELSE Free,
    issues |-> <<>>]
-CrecDev(r, s) ==
-  LET d == RecDev(r, s)
-  IN [n \in DOMAIN d |-> [CrecExp(r, s) EXCEPT !.eq = d[n].eq]]
 =============================================================================
